@@ -110,6 +110,26 @@ func c16RunResume(v asmVariant, ops []asmOp, split, resume, mode int, slack int,
 			return fmt.Sprintf("after tail call #%d %s the clone's PC is $%06x, the direct emitter's is $%06x", split+i, op.name, c.PC(), pcAfter[split+i])
 		}
 	}
+	nested := mode == 2 && resume < len(ops)
+	if nested {
+		// the rest goes into a clone OF THE CLONE, which is appended to the clone before the clone is appended
+		c2 := c.Clone(make([]byte, roomy))
+		for i, op := range ops[resume:] {
+			if (applyReal(c2, op) != nil) != outcome[resume+i] {
+				return fmt.Sprintf("call #%d %s in a clone of the clone: refused=%v, %v in the direct emitter", resume+i, op.name, !outcome[resume+i], outcome[resume+i])
+			}
+			if c2.PC() != pcAfter[resume+i] {
+				return fmt.Sprintf("after call #%d %s in a clone of the clone PC is $%06x, the direct emitter's is $%06x", resume+i, op.name, c2.PC(), pcAfter[resume+i])
+			}
+		}
+		func() {
+			defer func() { pn = recover() }()
+			c.Append(c2)
+		}()
+		if pn != nil {
+			return fmt.Sprintf("Append of the inner clone panicked: %v", pn)
+		}
+	}
 	if decoy {
 		// a second clone of the same original receives other references and labels and is thrown away:
 		// whatever is done to it must not leak into the original or into the first clone
@@ -159,7 +179,7 @@ func c16RunResume(v asmVariant, ops []asmOp, split, resume, mode int, slack int,
 	if pn != nil {
 		return fmt.Sprintf("Append panicked: %v (tail %d bytes, remaining %d)", pn, tailLen, capA-headLen)
 	}
-	if resume < len(ops) {
+	if resume < len(ops) && !nested {
 		// keep emitting after the Append
 		tgt := a
 		if mode == 1 {
@@ -225,7 +245,7 @@ func replayC16(raw json.RawMessage) (string, error) {
 		}
 	}
 	for resume := h.Split; resume < len(ops); resume++ {
-		for mode := 0; mode <= 1; mode++ {
+		for mode := 0; mode <= 2; mode++ {
 			if d := c16RunResume(h.Variant, ops, h.Split, resume, mode, 99, false); d != "" {
 				return fmt.Sprintf("%+v %v split %d resume %d mode %d: %s", h.Variant, h.Ops, h.Split, resume, mode, d), fmt.Errorf("unexplained:clone-append")
 			}
@@ -263,7 +283,7 @@ func runC16(r *report.Run) {
 				if withSlack {
 					// stage 1 only: emission continues after the Append, directly or through a second clone
 					for resume := split; resume < len(ops); resume++ {
-						for mode := 0; mode <= 1; mode++ {
+						for mode := 0; mode <= 2; mode++ {
 							n++
 							if d := c16RunResume(v, ops, split, resume, mode, 99, false); d != "" {
 								return "unexplained:clone-append", fmt.Sprintf("%+v %v split %d resume %d mode %d: %s", v, historyNames(al, idx), split, resume, mode, d), n, &asmHistory{Variant: v, Ops: historyNames(al, idx), Capacity: 512, Split: split}
@@ -293,8 +313,8 @@ func runC16(r *report.Run) {
 	r.Set("distinct_nontrivial", st-hist)
 	r.Set("histories", hist)
 	r.Set("history_x_split_x_capacity_cases", st)
-	r.Set("bounds", map[string]interface{}{"history_depth": depth, "alphabet": len(asmAlphabet()), "constructor_variants": len(stage1), "splits": "every split point 0..n; at the first depth also every resume point (clone gets ops[split:resume], the rest is emitted after the Append, directly or through a second Clone/Append)", "append_capacity_slack": []int{-1, 0, 1}})
-	r.Set("rule", "every call sequence up to the depth x every split point x every constructor variant: head into A, A.Clone, tail into the clone, A.Append(clone), compared with a direct emitter on Bytes/Len/PC/Flags/GetLabel/text and hex listings/Finalize outcome and finalized bytes; A is compared with its own snapshot before Append; at the first depth the emitter keeps emitting after the Append (every resume point, directly or through a second Clone/Append) and must still equal the direct one; Append with remaining capacity exactly tail-1 must be refused leaving A unchanged, tail and tail+1 must succeed; non-trivial = split strictly inside or capacity-edge cases")
+	r.Set("bounds", map[string]interface{}{"history_depth": depth, "alphabet": len(asmAlphabet()), "constructor_variants": len(stage1), "splits": "every split point 0..n; at the first depth also every resume point (clone gets ops[split:resume], the rest is emitted after the Append directly, through a second Clone/Append, or before it through a clone of the clone)", "append_capacity_slack": []int{-1, 0, 1}})
+	r.Set("rule", "every call sequence up to the depth x every split point x every constructor variant: head into A, A.Clone, tail into the clone, A.Append(clone), compared with a direct emitter on Bytes/Len/PC/Flags/GetLabel/text and hex listings/Finalize outcome and finalized bytes; A is compared with its own snapshot before Append; at the first depth the emitter keeps emitting after the Append (every resume point: directly, through a second Clone/Append, or nested through a clone of the clone) and must still equal the direct one; Append with remaining capacity exactly tail-1 must be refused leaving A unchanged, tail and tail+1 must succeed; non-trivial = split strictly inside or capacity-edge cases")
 	r.Sample(asmHistory{Variant: variants[2], Ops: []string{"BNE(a)", "Label(b)", "JMP_abs(b)", "Label(a)"}, Capacity: 512, Split: 2})
 	r.Assume("Finalize error choice depends on Go map order: the two emitters must both fail or both succeed, the errors need not be equal")
 }
